@@ -162,8 +162,8 @@ func mutateBytes(r *rand.Rand, src, other []byte, prefixes []int) ([]byte, strin
 // fuzz: robustness of validation on everything that decodes.
 func (st *step) fuzz(prevBytes []byte) {
 	c := st.c
-	nBlock := c.N(260, 1200)
-	nCommit := c.N(140, 600)
+	nBlock := c.N(300, 2500)
+	nCommit := c.N(160, 1200)
 	src := mustBytes(st.block)
 	var prefixes []int
 	lenPrefixPositions(src, 0, 0, &prefixes)
